@@ -696,3 +696,122 @@ Qed.
 (* accept returns exactly the buffer text *)
 Lemma accept_result_text s : accept_result s = et s.
 Proof. reflexivity. Qed.
+
+(* ---------------------------------------------------------------------- *)
+(* The working index stays within the working lines: every Buffer mutator of
+   the model, any arguments, exceptions included (audit item 1). *)
+Definition WInv (s : est) : Prop := 0 <= ewi s < len (ewl s).
+
+Lemma set_cursor_hist s v : ewl (set_cursor s v) = ewl s /\ ewi (set_cursor s v) = ewi s.
+Proof. unfold set_cursor. destruct (_ =? ec s); split; reflexivity. Qed.
+
+Lemma WInv_same s s' : ewl s' = ewl s -> ewi s' = ewi s -> WInv s -> WInv s'.
+Proof. unfold WInv. intros -> ->. tauto. Qed.
+
+Lemma set_cursor_winv s v : WInv s -> WInv (set_cursor s v).
+Proof. destruct (set_cursor_hist s v) as [A B]. now apply WInv_same. Qed.
+
+Lemma set_text_winv s v : WInv s -> WInv (eres_st (set_text s v)).
+Proof.
+  intros H. unfold set_text.
+  set (s1 := if len v <? ec s then set_cursor s (len v) else s).
+  assert (H1 : WInv s1) by (unfold s1; destruct (len v <? ec s); [now apply set_cursor_winv|exact H]).
+  destruct (ero s1); cbn [eres_st]; [exact H1|]. destruct (str_eqb _ _); cbn [eres_st]; exact H1.
+Qed.
+
+Lemma set_document_winv s t c b : WInv s -> WInv (eres_st (set_document s t c b)).
+Proof.
+  intros H. unfold set_document. destruct (len t <? c); cbn [eres_st]; [exact H|].
+  destruct (negb b && ero s); cbn [eres_st]; exact H.
+Qed.
+
+Lemma ebind_winv r k :
+  WInv (eres_st r) -> (forall s, WInv s -> WInv (eres_st (k s))) -> WInv (eres_st (ebind r k)).
+Proof. destruct r as [s|c s]; cbn [ebind eres_st]; auto. Qed.
+
+Lemma len_set_nth {T} (l : list T) : forall n x, len (set_nth l n x) = len l.
+Proof.
+  induction l as [|y r IH]; intros [|n] x; cbn [set_nth]; try reflexivity.
+  rewrite !len_cons. now rewrite IH.
+Qed.
+
+Lemma set_working_index_winv s i : WInv s -> 0 <= i < len (ewl s) -> WInv (set_working_index s i).
+Proof.
+  intros H Hi. unfold set_working_index. destruct (i =? ewi s); [exact H|].
+  unfold WInv; cbn [ewl ewi with_tc with_hist]. now rewrite len_set_nth.
+Qed.
+
+Lemma history_backward_pos_winv s n : WInv s -> 0 < n -> WInv (eres_st (history_backward_pos s n)).
+Proof.
+  intros H Hn. unfold history_backward_pos. destruct (0 <? ewi s) eqn:E; cbn [eres_st]; [|exact H].
+  apply set_cursor_winv, set_working_index_winv; [exact H|]. unfold WInv in H. lia.
+Qed.
+Lemma history_forward_pos_winv s n : WInv s -> 0 < n -> WInv (eres_st (history_forward_pos s n)).
+Proof.
+  intros H Hn. unfold history_forward_pos. destruct (_ <? _) eqn:E; cbn [eres_st]; [|exact H].
+  apply set_cursor_winv, set_cursor_winv, set_working_index_winv; [exact H|]. unfold WInv in H. lia.
+Qed.
+Lemma history_backward_winv s n : WInv s -> WInv (eres_st (history_backward s n)).
+Proof.
+  intros H. unfold history_backward. destruct (n =? 0) eqn:E0; [exact H|].
+  destruct (n <? 0) eqn:E1; [apply history_forward_pos_winv|apply history_backward_pos_winv]; (exact H || lia).
+Qed.
+Lemma history_forward_winv s n : WInv s -> WInv (eres_st (history_forward s n)).
+Proof.
+  intros H. unfold history_forward. destruct (n =? 0) eqn:E0; [exact H|].
+  destruct (n <? 0) eqn:E1; [apply history_backward_pos_winv|apply history_forward_pos_winv]; (exact H || lia).
+Qed.
+
+Lemma cursor_updown_winv s n :
+  WInv s -> WInv (eres_st (cursor_up s n)) /\ WInv (eres_st (cursor_down s n)).
+Proof.
+  intros H. unfold cursor_up, cursor_down; cbn [eres_st].
+  split; match goal with |- WInv (with_pref ?x _) => apply (WInv_same x) end;
+    try reflexivity; now apply set_cursor_winv.
+Qed.
+
+Lemma bstep_winv s o : WInv s -> WInv (eres_st (bstep s o)).
+Proof.
+  intros H; destruct o; cbn [bstep].
+  - now apply set_text_winv.
+  - cbn [eres_st]; now apply set_cursor_winv.
+  - now apply set_document_winv.
+  - unfold insert_text; now apply set_document_winv.
+  - unfold delete_before_cursor. destruct (n <? 0); [exact H|]. destruct (0 <? ec s); [|exact H].
+    now apply set_document_winv.
+  - unfold delete. destruct (ec s <? _); [|exact H]. now apply set_text_winv.
+  - cbn [cursor_left eres_st]; now apply set_cursor_winv.
+  - cbn [cursor_right eres_st]; now apply set_cursor_winv.
+  - now apply cursor_updown_winv.
+  - now apply cursor_updown_winv.
+  - exact H.
+  - exact H.
+  - unfold go_to_history. destruct (_ && _) eqn:E; cbn [eres_st]; [|exact H].
+    apply andb_true_iff in E as [E1 E2]. apply set_cursor_winv, set_working_index_winv; [exact H|lia].
+  - now apply history_backward_winv.
+  - now apply history_forward_winv.
+  - unfold auto_up. destruct (0 <? _); [now apply cursor_updown_winv|]. destruct (esel s); [exact H|].
+    apply ebind_winv; [now apply history_backward_winv|]. intros s1 H1. destruct g; cbn [eres_st]; [now apply set_cursor_winv|exact H1].
+  - unfold auto_down. destruct (_ <? _); [now apply cursor_updown_winv|]. destruct (esel s); [exact H|].
+    apply ebind_winv; [now apply history_forward_winv|]. intros s1 H1. destruct g; cbn [eres_st]; [now apply set_cursor_winv|exact H1].
+  - unfold paste. destruct (count <? 1); [now apply set_document_winv|].
+    destruct (ty =? 0); [now apply set_document_winv|]. destruct (ty =? 1); [|exact H].
+    destruct (mode =? 1); now apply set_document_winv.
+Qed.
+
+Lemma bsteps_winv ops : forall s, WInv s -> WInv (bsteps s ops).
+Proof.
+  induction ops as [|o ops IH]; intros s H; cbn [bsteps fold_left]; [exact H|]. apply IH, bstep_winv, H.
+Qed.
+
+(* go_to_history as it stood before fix c767972 broke it, both ways *)
+Lemma go_to_history_pinned_refuted :
+  exists s, WInv s /\ EInv s /\
+    ~ WInv (eres_st (go_to_history_pinned s (-1))) /\
+    (exists s', go_to_history_pinned s (-5) = EErr E_INDEX s' /\ ewi s' = -5).
+Proof.
+  exists (mkE [99] 1 None [] false None [[97]; [98]; [99]] 2 false M_INSERT false None false false).
+  split; [unfold WInv; cbn; lia|]. split; [split; [unfold CInv; cbn; lia|unfold SInv; cbn; discriminate]|].
+  split; [vm_compute; intros [H _]; apply H; reflexivity|].
+  eexists. split; vm_compute; reflexivity.
+Qed.
